@@ -19,6 +19,9 @@ use simcorpus::{
     Ctx, Entry, VARIANTS,
 };
 
+/// every thread that runs a parser gets the same generous stack (deeply nested corpus inputs)
+const STACK_BYTES: usize = 256 << 20;
+
 #[derive(Debug, Clone)]
 struct Job {
     variant: String,
@@ -90,8 +93,15 @@ fn cmd_list() {
 fn cmd_oracle() {
     let v: Value = serde_json::from_str(&read_stdin()).expect("job json");
     let job = parse_job(&v);
-    simrt::set_job(0, job.input.len() as u32);
-    let r = run_job_guarded(&job, Entry::Noop);
+    let r = std::thread::Builder::new()
+        .stack_size(STACK_BYTES)
+        .spawn(move || {
+            simrt::set_job(0, job.input.len() as u32);
+            run_job_guarded(&job, job.entry)
+        })
+        .expect("spawn oracle thread")
+        .join()
+        .expect("oracle thread");
     println!("{}", json!({"res": r.res, "ctx": ctx_json(&r.ctx), "panic": r.panicked}));
 }
 
@@ -142,7 +152,14 @@ fn run_one(sim: &Arc<Sim>, task: usize, j: usize, job: &Job, fresh: bool) -> Job
     };
     if fresh {
         // a new OS thread per job (fresh TLS); the task's baton stays with the task
-        std::thread::scope(|s| s.spawn(|| body(true)).join().expect("job thread"))
+        std::thread::scope(|s| {
+            std::thread::Builder::new()
+                .stack_size(STACK_BYTES)
+                .spawn_scoped(s, || body(true))
+                .expect("spawn job thread")
+                .join()
+                .expect("job thread")
+        })
     } else {
         body(false)
     }
@@ -183,7 +200,7 @@ fn cmd_run() {
         handles.push(
             std::thread::Builder::new()
                 .name(format!("task{t}"))
-                .stack_size(16 << 20)
+                .stack_size(STACK_BYTES)
                 .spawn(move || {
                     simrt::bind_thread(&sim, t);
                     sim.task_enter(t);
